@@ -1,4 +1,4 @@
-import RactorModel.Lemmas.TreeRace
+import RactorModel.Lemmas.TreeMacro
 import RactorModel.Extracted
 
 /-!
@@ -135,6 +135,36 @@ theorem exit_machine_complete (fixed kill : Bool) (ops : List Op) (a : Nat) :
       ⟨if kill then exit fixed (terminate fixed (steps fixed init ops) a) a else exit fixed (steps fixed init ops) a, .done⟩ :=
   xrun_complete fixed kill _ a (invariant fixed ops)
 
+/-- Quiescent runs (what the E-LTS harness executes; kill condition `< Stopping`): after every macro
+op the three predicates the driver evaluates on the implementation's snapshots hold of the model's —
+`ok` (links, stopped actors, child sets), `subtreeOk` (whoever became Stopped took all its children with
+it — by induction its whole subtree), `gainOk` (nothing at or beyond Draining gained a link). -/
+theorem quiescent_step_ok (ops : List MOp) (op : MOp) :
+    let m := mrun true {} ops
+    let m' := (mstep true m op).1
+    ok m'.t = true ∧ subtreeOk m.t m'.t = true ∧ gainOk m.t m'.t = true := by
+  intro m m'
+  have h := mrun_MI ops
+  exact (mstep_rel h op).2.checks h.inv
+
+/-- The first sentence of the property, at quiescent points: when a live actor exits (here: is killed;
+the other causes go through the same `exitM`), exactly the actors linked beneath it at that moment,
+transitively, reach Stopped — everybody else keeps its status. -/
+theorem quiescent_exit_takes_subtree (ops : List MOp) (a : Nat)
+    (hal : (mrun true {} ops).alive a = true) :
+    let m := mrun true {} ops
+    let m' := (mstep true m (.kill a)).1
+    (∀ z, Desc m.t a z → m'.t.status z = .stopped) ∧ (∀ z, ¬ Desc m.t a z → m'.t.status z = m.t.status z) := by
+  intro m m'
+  have h := mrun_MI ops
+  obtain ⟨han, hag⟩ := alive_iff.mp hal
+  have e : m' = exitM true m a := by
+    show (mstep true m (.kill a)).1 = _
+    simp only [mstep, hal, ↓reduceIte, m]
+  rw [e]
+  obtain ⟨_, hD, hN, _, _⟩ := exitM_spec h han hag
+  exact ⟨hD, hN⟩
+
 /-! ### ties to the source text (E-SRC) -/
 
 /-- the kill condition in `ActorCell::terminate` is the one the model uses for the code under test -/
@@ -182,6 +212,8 @@ end C05
 #print axioms C05.exit_kills_subtree_partial
 #print axioms C05.race_link_exit
 #print axioms C05.exit_machine_complete
+#print axioms C05.quiescent_step_ok
+#print axioms C05.quiescent_exit_takes_subtree
 #print axioms C05.kill_condition_matches_source
 #print axioms C05.cleanup_order_matches_source
 #print axioms C05.status_discriminants_match_source
